@@ -283,7 +283,8 @@ def extract_column_qualifier(segment: BaseSegment) -> Optional[ColumnQualifierTu
 
 def extract_innermost_bracketed(bracketed_segment: BaseSegment) -> BaseSegment:
     # in case of subquery in nested parenthesis like: `SELECT * FROM ((table))`, find the innermost one first
-    while True:
+    while not is_set_expression(bracketed_segment):
+        # parenthesis around the branches of a set operation is not nesting: ((SELECT ...) UNION (SELECT ...))
         sub_bracketed_segments = [
             bs.get_child("bracketed")
             for bs in bracketed_segment.segments
